@@ -408,12 +408,12 @@ func main() {
 		var directed [][]caseOut
 		if withCont {
 			directed = append(directed, scenarioWedge(), scenarioLaggards(true), scenarioLaggards(false), scenarioLoneLaggard(),
-				scenarioPulledThenOwnTimer(), scenarioLaggardAfterOwnTimeout(), scenarioFutureRoundProposalToLaggard(),
+				scenarioPulledThenOwnTimer(), scenarioLaggardAfterOwnTimeout(), scenarioFutureRoundProposalToLaggard(false), scenarioFutureRoundProposalToLaggard(true),
 				scenarioTimeoutsUpToCutoff(4, 0), scenarioTimeoutsUpToCutoff(7, 3), scenarioBroadcastFailsAtRoundExpiry())
 		} else {
 			directed = append(directed, scenarioCompactionEquivocation(4, true), scenarioCompactionEquivocation(4, false),
 				scenarioCompactionEquivocation(7, true), scenarioCompactionEquivocation(7, false), scenarioCrossRole(),
-				scenarioStaleRoundJustification(), scenarioForgedKnownSigner(), scenarioCommitBroadcastFault(), scenarioRepeatedPrepareJustification(),
+				scenarioStaleRoundJustification(), scenarioForgedKnownSigner(false), scenarioForgedKnownSigner(true), scenarioCommitBroadcastFault(), scenarioRepeatedPrepareJustification(),
 				scenarioDecidedCompactedThenPulled())
 		}
 		for _, os := range directed {
